@@ -130,13 +130,17 @@ def c06_2(c: Ctx) -> None:
 LIB_WAITERS = {'get', 'join', 'wait', 'sleep'}
 
 
+# loop.call_later(delay, callback, *args) & co.: the callback runs later, in a copy of the context of whoever scheduled it
+SCHEDULERS = ('call_later', 'call_soon', 'call_at', 'call_soon_threadsafe', 'add_done_callback', 'run_in_executor')
+
+
 def task_sites(c: Ctx) -> list[tuple[Unit, ast.Call]]:
     out = []
     for u in c.prog.units.values():
         if u.module not in (SVC, MOD):
             continue
         for n in own_nodes_with_lambdas(u.node):
-            if isinstance(n, ast.Call) and call_name(n) in ('create_task', 'ensure_future', 'gather', 'run_coroutine_threadsafe', 'TaskGroup', 'start_soon'):
+            if isinstance(n, ast.Call) and call_name(n) in ('create_task', 'ensure_future', 'gather', 'run_coroutine_threadsafe', 'TaskGroup', 'start_soon') + SCHEDULERS:
                 out.append((u, n))
     return sorted(out, key=lambda x: (x[0].module, x[1].lineno))
 
@@ -157,6 +161,37 @@ def c06_3(c: Ctx) -> None:
             if not payloads:
                 c.ok(where(u, call), 'gather(*tasks) awaits tasks classified at their creation sites')
                 continue
+        elif call_name(call) in SCHEDULERS:
+            # the scheduled callback: first callable argument (after the delay / executor)
+            pos = 1 if call_name(call) in ('call_later', 'call_at', 'run_in_executor') else 0
+            cb = call.args[pos] if len(call.args) > pos else None
+            target = None
+            if isinstance(cb, ast.Name):
+                target = next((v for v in c.prog.nested(u) if v.name == cb.id), None) or c.prog.resolve_name_callee(cb.id, u)
+            elif isinstance(cb, ast.Attribute):
+                ty = c.prog.infer(cb.value, u)
+                if ty is not None and ty.kind == 'cls':
+                    target = c.prog.method(ty.name, cb.attr)
+            if q.kw(call, 'context') is not None and isinstance(q.kw(call, 'context'), ast.Call) and U(q.kw(call, 'context').func).split('.')[-1] == 'Context':
+                c.ok(where(u, call), f'{call_name(call)}(...) with a fresh Context(): inherits nothing')
+                continue
+            if isinstance(target, Unit):
+                reach = c.cg.reach([target])
+                hit = sorted(k[1] for k in reach if k in pe_like)
+                if hit:
+                    c.fail(u, f'{call_name(call)}({U(cb)[:40]}) schedules code that reaches {hit}', f'a callback scheduled with {call_name(call)} runs in a copy of the scheduling context: scheduled from inside a handler it keeps '
+                           f'holds_global_lock / inside_handler_context / the current event of a handler that has long finished, and then dispatches or processes events ({hit}) under that identity', node=call)
+                else:
+                    c.ok(where(u, call), f'{call_name(call)}({U(cb)[:40]}) schedules code that never dispatches or processes events', reach=len(reach))
+            elif isinstance(cb, ast.Lambda) or cb is None:
+                inner = [x for x in ast.walk(cb)] if cb is not None else []
+                if any(isinstance(x, ast.Call) and call_name(x) in ('dispatch', 'process_event', 'step') for x in inner):
+                    c.fail(u, f'{call_name(call)}(<lambda that dispatches / processes events>)', 'a scheduled callback inheriting a handler context dispatches or processes events', node=call)
+                else:
+                    c.ok(where(u, call), f'{call_name(call)}({U(cb)[:40] if cb is not None else ""}): no bus code')
+            else:
+                c.ok(where(u, call), f'{call_name(call)}({U(cb)[:40]}): library callback (future / loop method), runs no bus code')
+            continue
         elif call_name(call) == 'TaskGroup' and not call.args:
             c.ok(where(u, call), 'TaskGroup(): its tasks are classified at their create_task sites')
             continue
